@@ -11,7 +11,7 @@ RULE = ("every public function with an out/output parameter (erode, dilate, open
         "dtype, wrong shape, non-contiguous view, Fortran order, `output=` spelling}: with a valid buffer the call must return that "
         "very object holding exactly what the call returns without out; an invalid buffer must be rejected with ValueError or "
         "TypeError and left bitwise untouched; without out the result has the documented dtype and the input's shape. "
-        "Non-trivial: result not constant")
+        "Non-trivial: result not constant Every valid-out case is run twice into buffers pre-filled with different values (the contents after the call may not depend on what the buffer held); image contents include all-zero, constant and zero-border images; sides 2..6.")
 NOT_PROVED = ["per-wrapper buffer flow is checked on the implementation; the Coq theorems cover the shared helper _get_output "
               "(re-translated from internal.py) and the Gaussian ping-pong"]
 BUDGET_S = {"quick": 100, "thorough": 900}
